@@ -162,9 +162,25 @@ class Gen:
             b = self.instr(sc, d - 1)
             return "(seq %s %s)" % (a, b)
         if k == "par":
-            # variables defined in one branch are visible afterwards (the validator is lexical)
-            a = self.instr(sc, d - 1)
-            b = self.instr(sc, d - 1)
+            # a branch must not depend on what its sibling defines (that is a data race between the
+            # branches: whether the value is known depends on the schedule); both branches' definitions
+            # are visible after the par
+            sa = dict(sc, scalars=dict(sc["scalars"]), streams=list(sc["streams"]), canons=list(sc["canons"]))
+            sb = dict(sc, scalars=dict(sc["scalars"]), streams=list(sc["streams"]), canons=list(sc["canons"]))
+            a = self.instr(sa, d - 1)
+            b = self.instr(sb, d - 1)
+            if not getattr(p, "par_exports", True):
+                pass
+            else:
+                for src in (sa, sb):
+                    for n, kk in src["scalars"].items():
+                        sc["scalars"].setdefault(n, kk)
+                    for n in src["streams"]:
+                        if n not in sc["streams"]:
+                            sc["streams"].append(n)
+                    for n in src["canons"]:
+                        if n not in sc["canons"]:
+                            sc["canons"].append(n)
             return "(par %s %s)" % (a, b)
         if k == "xor":
             inner = dict(sc, scalars=dict(sc["scalars"]), streams=list(sc["streams"]), canons=list(sc["canons"]), in_xor=True)
